@@ -108,3 +108,84 @@ func HarnessPanicHTTP() {
 	verif.Assert(h.ok == 1, "subsequent-call-ran-once")
 	verif.Reach("panic-http-done")
 }
+
+type C struct {
+	Boom func(a int) (int, error)
+	Fine func(a int) (int, error)
+	Slow func(ctx context.Context, a int) (int, error)
+	Sub  func(ctx context.Context) (<-chan int, error)
+}
+
+type WH struct {
+	H
+	release chan struct{}
+}
+
+func (h *WH) Slow(ctx context.Context, a int) (int, error) { <-h.release; return a, nil }
+func (h *WH) Sub(ctx context.Context) (<-chan int, error) {
+	out := make(chan int)
+	go func() {
+		defer close(out)
+		select {
+		case out <- 1:
+		case <-ctx.Done():
+			return
+		}
+		select {
+		case <-h.release:
+		case <-ctx.Done():
+		}
+		select {
+		case out <- 2:
+		case <-ctx.Done():
+		}
+	}()
+	return out, nil
+}
+
+// HarnessPanicWS: over WebSocket, with a sibling call and a sibling stream in
+// flight, a panicking handler fails only its own call.
+func HarnessPanicWS() {
+	h := &WH{H: H{kind: verif.Choice("kind", 8), msg: verif.String("msg", 2)}, release: make(chan struct{})}
+	srv := jsonrpc.NewServer()
+	srv.Register("H", h)
+	url, stop := verif.ServeWS(srv)
+	var c C
+	closer, err := jsonrpc.NewMergeClient(context.Background(), url, "H", []interface{}{&c}, nil)
+	verif.Assert(err == nil, "client-created")
+	x := 0
+	if h.kind == 5 {
+		x = 3
+	}
+	slowRet, slowVal := 0, 0
+	var slowErr error
+	go func() { slowVal, slowErr = c.Slow(context.Background(), 7); slowRet++ }()
+	ctx, cancel := context.WithCancel(context.Background())
+	ch, serr := c.Sub(ctx)
+	verif.Assert(serr == nil && ch != nil, "sibling-stream-established")
+	var got []int
+	chClosed := 0
+	go func() {
+		for v := range ch {
+			got = append(got, v)
+		}
+		chClosed++
+	}()
+	_, perr := c.Boom(x)
+	verif.Assert(perr != nil, "panicking-call-gets-error")
+	if perr != nil {
+		verif.Assert(strings.Contains(perr.Error(), "panic"), "error-mentions-panic")
+	}
+	verif.Assert(!verif.Crashed(), "process-survives")
+	close(h.release)
+	verif.Quiesce()
+	verif.Assert(slowRet == 1 && slowErr == nil && slowVal == 7, "sibling-call-unaffected")
+	verif.Assert(chClosed == 1 && len(got) == 2 && got[0] == 1 && got[1] == 2, "sibling-stream-unaffected")
+	v, ferr := c.Fine(4)
+	verif.Assert(ferr == nil && v == 8, "later-call-unaffected")
+	cancel()
+	closer()
+	stop()
+	verif.Quiesce()
+	verif.Reach("panic-ws-done")
+}
